@@ -304,8 +304,18 @@ pub fn probe<T>(ctx: &mut Ctx, c: &Codec<T>, what: &str, input: &[u8]) -> Option
                 if re != input[..*n] {
                     ctx.violation("non-canonical-encoding-accepted", c.name, input.len(), w(), json!({"consumed": n, "re_encoding": hex::encode(&re), "value": (c.show)(v).chars().take(400).collect::<String>()}));
                 }
+            } else {
+                // several encodings per value are allowed: whatever was accepted must survive
+                // an encode / decode cycle unchanged
+                match mc_core::catch(|| {
+                    let re = (c.enc)(v);
+                    (c.dec)(&re).map(|(v2, n2)| (c.eq)(&v2, v) && n2 == re.len())
+                }) {
+                    Ok(Some(true)) => {}
+                    other => ctx.violation("accepted-value-does-not-survive-re-encoding", c.name, input.len(), w(), json!({"value": (c.show)(v).chars().take(400).collect::<String>(), "outcome": format!("{other:?}")})),
+                }
             }
-            ctx.outcome("hostile input: accepted (canonical)", 1);
+            ctx.outcome("hostile input: accepted", 1);
         }
         None => ctx.outcome("hostile input: rejected", 1),
     }
@@ -414,6 +424,33 @@ pub fn sweep<T>(ctx: &mut Ctx, c: &Codec<T>, values: &[T]) {
             let mut x = e.clone();
             x.insert(off, e[off]);
             probe(ctx, c, "byte duplicated", &x);
+        }
+    }
+    // adjacent blocks swapped / the first copied over the second, for every block length up
+    // to 128 (entries of maps, sets and lists are such blocks): only for the first value of
+    // a type with at most 1024 bytes in the quick tier, for every such value otherwise
+    for (vi, v) in values.iter().enumerate() {
+        let e = (c.enc)(v);
+        if e.len() > 1024 || (quick && vi >= 2 && c.cost > 1) {
+            continue;
+        }
+        let thin = if quick { (e.len() * 128 * c.cost).div_ceil(400_000).max(1) } else { 1 };
+        for l in 1..=128.min(e.len() / 2) {
+            for off in (0..=e.len() - 2 * l).step_by(thin) {
+                let (a, b) = (&e[off..off + l], &e[off + l..off + 2 * l]);
+                if a == b {
+                    continue;
+                }
+                let mut x = e.clone();
+                x[off..off + l].copy_from_slice(b);
+                x[off + l..off + 2 * l].copy_from_slice(a);
+                probe(ctx, c, "adjacent blocks swapped", &x);
+                if l >= 2 && off % 2 == 0 {
+                    let mut y = e.clone();
+                    y[off + l..off + 2 * l].copy_from_slice(a);
+                    probe(ctx, c, "block duplicated over its successor", &y);
+                }
+            }
         }
     }
     if c.short_inputs {
